@@ -82,6 +82,14 @@ def htslib_cases(ctx, work):
         spec = vcfgen.simple_file(rng, nrec=0 if k == 1 else rng.choice([1, 5, 40, 150]), ncontig=rng.choice([1, 2, 4]),
                                   long_refs=rng.random() < 0.5)
         ctx.count("header_only_files" if not spec["records"] else "files_with_records")
+        if k == 2 and spec["records"]:
+            # one record far along a contig: the tabix linear index then has > 10^4 intervals and the (BGZF) index file
+            # several compressed blocks
+            last = spec["records"][-1]
+            far = dict(last, pos=rng.choice([150_000_000, 260_000_000]) + rng.randrange(1000), info={})
+            spec["contigs"][last["contig"]][1] = rng.choice([None, 2**31 - 1])
+            spec["records"].append(far)
+            ctx.count("files_with_multi_block_index")
         for kind in ("vcf.gz+tbi", "vcf.gz+csi", "bcf+csi"):
             ms = rng.choice([9, 12, 14, 14, 17, 20])
             path = vcfgen.materialise(spec, pathlib.Path(work) / f"h{k}", kind, block_size=rng.choice([300, 2000, 0xFF00]),
